@@ -261,6 +261,21 @@ static void query_bmp(kdump_ctx_t *ctx, const char *key, kdump_addr_t maxpfn)
 		note_status(kdump_bmp_get_bits(a.val.bitmap, maxpfn - 9, maxpfn + 6, bits));
 	}
 	free(bits);
+	{
+		/* ranges that start inside the map (in a later part of a file's window) */
+		static const unsigned starts[] = { 1, 2, 3, 5, 6, 7, 9, 10, 12, 15, 17, 20, 22, 31, 39 };
+		unsigned k;
+		bits = malloc(8);
+		for (k = 0; k < sizeof starts / sizeof starts[0]; ++k) {
+			if (maxpfn && starts[k] >= maxpfn)
+				break;
+			step("bmp_get_bits(mid)");
+			note_status(kdump_bmp_get_bits(a.val.bitmap, starts[k], starts[k] + 34, bits));
+			step("bmp_get_bits(one)");
+			note_status(kdump_bmp_get_bits(a.val.bitmap, starts[k], starts[k], bits));
+		}
+		free(bits);
+	}
 	probes[0] = 0; probes[1] = 1; probes[2] = maxpfn ? maxpfn - 1 : 0; probes[3] = maxpfn;
 	probes[4] = maxpfn + 1; probes[5] = ~(kdump_addr_t)0;
 	for (i = 0; i < 6; ++i) {
